@@ -378,7 +378,7 @@ func monC05(c *child.Ctx, replay json.RawMessage) {
 					run(baseCase{B: b, TypeField: t, Cut: -1}, true)
 				}
 			}
-			for _, hgt := range []uint{0, 1, 9, 10, 9999, 10000, 10001, 32767, 32768, 65534, 65535} {
+			for _, hgt := range []uint{0, 1, 9, 10, 11, 99, 100, 101, 999, 1000, 1001, 9999, 10000, 10001, 32767, 32768, 65534, 65535} {
 				b := gen.RandBase(r, 1006)
 				b.Height = hgt
 				run(baseCase{B: b, TypeField: 1006, Cut: -1}, true)
@@ -653,9 +653,16 @@ func monC05(c *child.Ctx, replay json.RawMessage) {
 					<-start
 					for i := 0; i < 60 && bad.Load() == nil; i++ {
 						s := i % len(stations)
-						_, text, err := decodeBaseDirect(t, frames[s], slog.LevelInfo)
+						f, text, err := decodeBaseDirect(t, frames[s], slog.LevelInfo)
 						if err != nil {
-							continue
+							cj, _ := json.Marshal(baseCase{B: stations[s], TypeField: t, Cut: -1})
+							bad.Store([2]string{fmt.Sprintf("type %d decoder rejected a well-formed message while seven other goroutines decode and display the same %d frames (from the same buffers): %v", t, len(stations), err), string(cj)})
+							return
+						}
+						if why := checkBaseFields(stations[s], f); why != "" {
+							cj, _ := json.Marshal(baseCase{B: stations[s], TypeField: t, Cut: -1})
+							bad.Store([2]string{fmt.Sprintf("type %d decoder while seven other goroutines decode the same %d frames from the same buffers: %s", t, len(stations), why), string(cj)})
+							return
 						}
 						if why := checkBaseText(stations[s], text); why != "" {
 							cj, _ := json.Marshal(baseCase{B: stations[s], TypeField: t, Cut: -1})
@@ -667,7 +674,17 @@ func monC05(c *child.Ctx, replay json.RawMessage) {
 			close(start)
 			wg.Wait()
 			if v := bad.Load(); v != nil {
-				c.Violate("display-not-exact", v.([2]string)[0], []byte(v.([2]string)[1]))
+				sig := "display-not-exact"
+				if strings.Contains(v.([2]string)[0], "decoder") {
+					sig = "field-mismatch"
+				}
+				c.Violate(sig, v.([2]string)[0], []byte(v.([2]string)[1]))
+			}
+			for s := range frames {
+				if !bytes.Equal(frames[s], ref.Frame(ref.EncodeBase(stations[s], t))) {
+					cj, _ := json.Marshal(baseCase{B: stations[s], TypeField: t, Cut: -1})
+					c.Violate("field-mismatch", fmt.Sprintf("the caller's frame of a type %d message was changed by being decoded (eight goroutines reading the same buffer)", t), cj)
+				}
 			}
 			c.Count("rounds_of_the_same_stations_displayed_side_by_side", 1)
 			if round%16 == 0 {
